@@ -5,6 +5,9 @@ checks = {
  "C01": ("model_checking", "bounded-exhaustive enumeration of JSON values x presentations (deviation-bounded DFS over whitespace gaps) executed on the real canonicaliser, against an independent reference encoder",
          "Every JSON text of the stated alphabet/bounds is executed on the real code and compared byte-for-byte with refjson; a coverage statement, not a sample. Right level because the property is a for-all over an input language whose interesting part (escapes, key order, -0, number spellings, corruption points) is small and enumerable.",
          "trusts encoding/json.Valid + refjson as validity oracle; values outside the alphabet (long strings, deep nesting) not covered", "4/C01"),
+ "C20": ("model_checking", "exhaustive product of issue parameters x issue/validation instants (virtual clock via source instrumentation) x byte- and caveat-level alterations, executed on the real tokens package against a reference validity predicate",
+         "All histories (issue instant, validation instant) over the boundary alphabet and all single alterations of each issued token are executed on the real code under an owned clock; the oracle is the four-clause reference predicate.",
+         "trusts HMAC/macaroon library; macaroon location field and trailing bytes ignored by the decoder are unauthenticated by construction and not counted as alterations", "4/C20"),
 }
 pending = {}
 props = [json.loads(l) for l in open('/verif/properties.jsonl')]
